@@ -348,6 +348,8 @@ def _check_built_by_program(sub, case, cid, table, dialect, dialect_name, column
     try:
         built.add_data_format_row(["Format", case["format"]])
         built.data_format.validate()
+        # a factory that exists before the CID has its fields: what it writes is the CID at the time of writing
+        early_factory = sql.SqlFactory(built, table, dialect)
         for number, (field, declared) in enumerate(zip(cid.field_formats, case["fields"])):
             arguments = [declared["name"], bool(declared["empty"].strip()), declared["length"], declared["rule"],
                          built.data_format]
@@ -358,6 +360,12 @@ def _check_built_by_program(sub, case, cid, table, dialect, dialect_name, column
             check_class = {"IsUnique": checks.IsUniqueCheck, "DistinctCount": checks.DistinctCountCheck}[row[2]]
             built.add_check(check_class(row[1], row[3], built.field_names))
         statement = sql.SqlFactory(built, table, dialect).create_table_statement()
+        early_statement = early_factory.create_table_statement()
+        if early_statement != statement:
+            sub.fail("C19|built-by-program|early-factory-differs|%s" % dialect_name, case,
+                     "a factory created before the fields were added writes %r, one created afterwards %r" % (
+                         early_statement, statement))
+            return
         _, built_columns = parse_create_table(statement)
     except Exception as error:
         sub.fail("C19|built-by-program|%s|%s" % (type(error).__name__, dialect_name), case,
